@@ -444,6 +444,17 @@ pub fn family(name: &str, _tier: Tier) -> Vec<Prog> {
         "shapes/pending" => pending_shapes(),
         "shapes/bindvars" => bindvar_shapes(),
         "shapes/readopt" => readopt_shapes(),
+        // the bind shapes with the top node and the shared chain observed (and stabilised) from the start: "two writes, stabilise,
+        // one write, stabilise" then fits the quick depth (after seed C01-h: a bind main that was queued, released and later
+        // re-adopted over a right-hand side that has not changed since)
+        "shapes/binds-started" => bind_shapes()
+            .into_iter()
+            .map(|mut p| {
+                let top = p.alpha.observable[1];
+                p.start_observed = vec![top, 4];
+                p
+            })
+            .collect(),
         "c05/on_update" => on_update_shapes(),
         // node creation interleaved with everything else (C01 "create node"): the derived nodes do not exist when the
         // history starts and appear one by one through `CreateNext` -- either all of them, or only the last one (a new
